@@ -171,6 +171,34 @@ CHECKS = {
               "equal live bytes before on both measured runs (a real leak repeats, lazy statics do not)."),
         assumptions=["counting global allocator (vcore::alloc); the harness drops its own response before measuring"],
     ),
+    "C15": dict(
+        engine="vparse", level="exploration", quick_cap=280, thorough_cap=3600,
+        rule=("Descriptor ASTs enumerated per item kind (include, cpp_include, namespace x 9 scopes, typedef over 29 types incl. "
+              "nested containers and annotated types, const over 50 values: ints incl. i64::MIN/MAX, 13 double spellings, 11 string "
+              "literals incl. escapes and comment look-alikes, bools, paths, nested list/map literals; enums; struct/union/exception "
+              "with every field id class, requiredness, type, default and annotation; services with extends/oneway/throws/"
+              "annotations), all ordered pairs of item kinds, plus identifiers that merely begin with each of 31 keywords (4 suffix "
+              "forms) in each of 23 identifier positions. Every AST is printed to tokens; EVERY free choice is a choice point of the "
+              "deviation-bounded explorer: the blank between any two tokens (space, newline, tab+CRLF, /*c*/, // c, # c), every "
+              "optional list separator (',' ';' none), quote style, decimal/hex integer form. Default layout + all single "
+              "deviations (thorough: all pairs for documents of <=24 tokens). Oracle: File::parse(text) == Ok((\"\", f)), Debug of "
+              "f.items == Debug of the AST converted to the parser's descriptor types, package == the rs namespace. "
+              "distinct_nontrivial = distinct rendered texts."),
+        assumptions=["a dotted path is one identifier token (no blanks around dots)", "separator choices only where Thrift IDL and "
+                     "pilota's grammar declare an optional list separator (not after an enum's closing brace)"],
+    ),
+    "C16": dict(
+        engine="vparse", level="fault_enumeration", quick_cap=280, thorough_cap=3600,
+        rule=("Seeds: default renderings of the C15 ASTs (every 9th in quick), one large multi-item document with comments, one "
+              "non-ASCII document. Mutations enumerated completely per seed: every prefix; every token deleted, duplicated, replaced "
+              "by each of a 40-token alphabet (every 3rd token for long seeds in quick); every number inflated to 10/11/19/20/40 "
+              "digits and to 7 extreme literals; tokens repeated 64/4096/60000 times (nesting tokens - [ { < ( list map set only 2 "
+              "and 64 times: deeper nesting is outside the statement); ALL strings of length <=2 [3] over a 40-character alphabet, "
+              "alone and behind 7 plausible prefixes; type and constant nesting depth 1..64 (list<..>, map<..>, [[..]], {{..}}, "
+              "----1). Every parse runs on a thread with a 2 MiB stack. Oracle: Ok or Err; no panic, no stack overflow (worker "
+              "death), < 2 s. distinct_nontrivial = distinct texts."),
+        assumptions=["a stack overflow kills the worker and is attributed through the progress file"],
+    ),
 }
 
 
@@ -212,6 +240,7 @@ def write_manifest():
     kinds = {
         "vcore": "shared library: dynamic Thrift values, bounded enumerators, reference codecs written from the specs, deviation-bounded explorer, counting allocator, shard/evidence plumbing",
         "gen:tsem": "generated-code engine: lib/corpus.py writes the semantic Thrift corpus + its schema, engines/vgen runs the real pilota-build per (document, configuration) in a child process, lib/gen.py scans the output for generated Message impls and emits a harness crate that include!s them; engines/vgenrun/src is the harness (schema-directed value enumeration, reference codec comparison)",
+        "vparse": "Thrift IDL parser engine: own descriptor AST, token printer with a choice point at every free layout decision, mutation/fault enumerators over rendered documents; drives pilota_thrift_parser::File::parse",
         "vrt": "runtime-level engine: value interpreter that drives pilota's real protocol objects exhaustively over the enumerated spaces (sync and scripted-async readers)",
     }
     m = {
@@ -239,7 +268,7 @@ HOOK_COMMITS = []
 
 
 def setup():
-    for pkg in ["vrt", "vgen"]:
+    for pkg in ["vrt", "vgen", "vparse"]:
         vlib.build(pkg)
     import gen
     r = gen.build_thrift_sem("quick")
